@@ -157,6 +157,10 @@ def execute_plans(plans):
     for p in plans:
         for h in p.hists:
             jobs.append((p, h))
+    return execute_jobs(jobs)
+
+
+def execute_jobs(jobs):
 
     def one(ij):
         i, (p, h) = ij
@@ -172,6 +176,27 @@ def execute_plans(plans):
     out = dict(zip([i for i, _ in plain], core.pmap(one, plain)))
     out.update(zip([i for i, _ in stubbed], core.pmap(one, stubbed)))
     return [out[i] for i in range(len(jobs))]
+
+
+def execute_and_validate(plans, chunk=20000):
+    """execute_plans + validate_runs in chunks, so that memory stays bounded however many runs the plans hold: of a run that
+    the monitor accepts only (plan, history, input bytes) are kept.  Returns (failed, n, results, drift): failed as from
+    validate_runs (run = index into results, whose entries are complete for the failed runs), drift as from drift_report."""
+    jobs = [(p, h) for p in plans for h in p.hists]
+    results, failed, drift, n = [], [], [], 0
+    for start in range(0, len(jobs), chunk):
+        part = jobs[start:start + chunk]
+        res = execute_jobs(part)
+        f_part, n_part = validate_runs([x[4] for x in res])
+        n += n_part
+        bad = {f["run"] for f in f_part}
+        if len(drift) < 10:
+            drift += drift_report(res)[:10 - len(drift)]
+        for i, x in enumerate(res):
+            results.append(x if i in bad else (x[0], x[1], x[2], None, None, None))
+        for f in f_part:
+            failed.append(dict(f, run=f["run"] + start))
+    return failed, n, results, drift
 
 
 def drift_report(results):
